@@ -13,6 +13,33 @@ from .common import NET_OPS, fkey, net_sites, trees, where
 EXPECTED_DELAYS = [0, 0.5, 1, 2, 4, 8, 16, 32]      # `0, 0.5, 1, 2, ...`: the ratio stays 2 (a levelled-off sequence deviates from the sixth retry on)
 
 
+def narrowed_retry_classes(ctx: Context, f: FuncInfo, h: ast.ExceptHandler) -> list[str] | None:
+    """A handler that catches more than it retries (`except BaseException as exc`) and lets everything outside `isinstance(exc, (A, B))` leave at once: the classes that can
+    get past that test.  None if the handler has no such test."""
+    if not h.name:
+        return None
+    for st in h.body:
+        if not (isinstance(st, ast.If) and any(isinstance(x, ast.Raise) for x in st.body)):
+            continue
+        for alt in ctx.prov.expand(st.test, f, st, pure=True):
+            # `not isinstance(exc, T) or <exhausted>`: everything that is not a T leaves
+            terms = alt.values if isinstance(alt, ast.BoolOp) and isinstance(alt.op, ast.Or) else [alt]
+            for t in terms:
+                if isinstance(t, ast.UnaryOp) and isinstance(t.op, ast.Not) and isinstance(t.operand, ast.Name):
+                    # `retryable = isinstance(exc, ...)` bound once in the handler
+                    defs = [a for a in h.body if isinstance(a, ast.Assign) and norm(a.targets[0]) == t.operand.id]
+                    if len(defs) == 1:
+                        t = ast.UnaryOp(op=ast.Not(), operand=defs[0].value)
+                if isinstance(t, ast.UnaryOp) and isinstance(t.op, ast.Not) and isinstance(t.operand, ast.Call) and norm(t.operand.func) == "isinstance" \
+                        and len(t.operand.args) == 2 and norm(t.operand.args[0]) == h.name:
+                    ts = t.operand.args[1]
+                    elts = ts.elts if isinstance(ts, ast.Tuple) else [ts]
+                    names = [ctx.escape.exc_name(f.module, e) for e in elts]
+                    if all(names):
+                        return sorted(names)       # type: ignore[arg-type]
+    return None
+
+
 def find_retry_loop(ctx: Context, f: FuncInfo) -> tuple[T.Any, ast.Try, ast.ExceptHandler]:
     for n in own_nodes(f.node):
         if isinstance(n, (ast.While, ast.For)):
@@ -21,6 +48,9 @@ def find_retry_loop(ctx: Context, f: FuncInfo) -> tuple[T.Any, ast.Try, ast.Exce
                     for h in t.handlers:
                         types_ = ctx.escape.handler_types(f.module, h)
                         if any(x in ("ConnectError", "ConnectTimeout") for x in types_):
+                            return n, t, h
+                        nr = narrowed_retry_classes(ctx, f, h)
+                        if nr and any(x in ("ConnectError", "ConnectTimeout") for x in nr):
                             return n, t, h
     raise AnalysisError(f"anchor vanished: connect retry loop in {f.qual}")
 
@@ -111,6 +141,9 @@ def run(ctx: Context) -> None:
         for h in tr.handlers:
             hn = cfg._by_ast.get(id(h))
             types_ = sorted(esc.handler_types(f.module, h))
+            nr_ = narrowed_retry_classes(ctx, f, h)
+            if nr_ is not None and types_ != ["ConnectError", "ConnectTimeout"]:
+                types_ = nr_          # what gets past the handler's own class test
             if not hn:
                 rep.note(f"{tree}: handler `except {ast.unparse(h.type) if h.type else ''}` catches nothing that the body can raise")
                 loops_back = any(not isinstance(s, ast.Raise) for s in h.body[-1:])
@@ -160,8 +193,12 @@ def run(ctx: Context) -> None:
             in_loop = {id(x) for x in ast.walk(loop)}
             loop_written = {x.id for n in own_nodes(loop) for x in ast.walk(n) if isinstance(x, ast.Name) and isinstance(x.ctx, ast.Store)}
             names = [n.id for n in ast.walk(guard_if.test) if isinstance(n, ast.Name) and n.id in loop_written]
+            stepped = {x.target.id for x in own_nodes(loop) if isinstance(x, ast.AugAssign) and isinstance(x.target, ast.Name)}
             if names:
-                ctr = names[0]
+                ctr = next((x for x in names if x in stepped), names[0])
+            # a class test bound to a name in the handler (`retryable = isinstance(exc, ...)`) holds on the retry path
+            class_flags = {norm(a.targets[0]): True for a in ast.walk(handler) if isinstance(a, ast.Assign) and isinstance(a.value, ast.Call) and norm(a.value.func) == "isinstance"
+                           and isinstance(a.targets[0], ast.Name) and a.targets[0].id != ctr}
             inits = [n for n in own_nodes(f.node) if isinstance(n, ast.Assign) and any(isinstance(t, ast.Name) and t.id == ctr for t in n.targets)]
             pre = [n for n in inits if id(n) not in in_loop]
             writers = [n for n in own_nodes(loop) if (isinstance(n, (ast.Assign, ast.AugAssign, ast.AnnAssign, ast.NamedExpr))
@@ -175,7 +212,7 @@ def run(ctx: Context) -> None:
                     c = peval(pre[0].value, {"self._retries": R})
                     k = 0
                     while k <= 8 and isinstance(c, int) and not isinstance(c, bool):
-                        g = peval(guard_if.test, {ctr: c, "self._retries": R})
+                        g = peval(guard_if.test, {**class_flags, ctr: c, "self._retries": R})
                         if g is UNKNOWN:
                             k = None
                             break
